@@ -94,6 +94,11 @@ def build_pairs(structure, pairs, mode):
 
     def res(r):
         if isinstance(r, (list, tuple)):
+            if len(r) == 3 and nts and nts[r[2] % len(nts)].auth is not None:
+                # chain, number and insertion code of an existing nucleotide under another residue name (the parent name
+                # of a modified nucleotide, a listing made for a homologous molecule): not a residue of this structure
+                a = nts[r[2] % len(nts)].auth
+                return Residue(None, ResidueAuth(a.chain, a.number, a.icode, (a.name or "") + "X"))
             return Residue(None, ResidueAuth("Zq", 9000 + int(r[1]), None, "G"))
         n = nts[r]
         if mode == "mixed":
@@ -244,6 +249,9 @@ def random_pairs(rng, letters, size=None, nlw=18, nsa=28, lw_rev=None):
             feats["multiplet"] = max(feats.get("multiplet", 0), deg)
         elif r < 0.90:
             d = ["d", rng.randint(1, 3)]
+            if rng.random() < 0.4:
+                d = ["d", rng.randint(1, 3), rng.randrange(n)]
+                feats["dangling-at-existing-position"] = feats.get("dangling-at-existing-position", 0) + 1
             i = rng.randrange(n)
             out.append(rng.choice([[d, i, lw_pick(), sa_pick()], [i, d, lw_pick(), sa_pick()], [d, ["d", 7], 0, None]]))
             feats["dangling"] = feats.get("dangling", 0) + 1
